@@ -7,8 +7,10 @@ import (
 )
 
 // Schema-guided coercion (x/exp/types/json.go) against the Coq model Impl/Coerce.v, through the hook VerifCoerceValue.
-//   coerce:     <resolved type> <value> -> <value>
-//   coercetags: <resolved type> <record> -> <record>
+//
+//	coerce:     <resolved type> <value> -> <value>
+//	coercetags: <resolved type> <record> -> <record>
+//
 // resolved types: (string) (long) (bool) (ext xNAME) (set t) (rec (xKEY t optional01)...) (ent xTYPE)
 func init() {
 	kinds["coerce"] = runCoerce
